@@ -563,7 +563,7 @@ func c16Fermat(c *Ctx, r *Report) {
 	if reg != nil && reg.Err == "" {
 		for _, call := range callsTo(reg.Execute, "lints/community.checkPrimeFactorsTooClose") {
 			a := call.Common().Args
-			if len(a) == 2 && strings.HasSuffix(apath(a[0]), ".N") && apath(a[1]) == reg.Execute.Params[0].Name()+".Rounds" {
+			if len(a) == 2 && strings.HasSuffix(apath(a[0]), ".N") && strings.HasPrefix(apath(a[1]), reg.Execute.Params[0].Name()+".") && strings.HasSuffix(apath(a[1]), ".Rounds") {
 				ok = true
 			}
 		}
